@@ -27,10 +27,10 @@ def check(ctx):
     if ids:
         args += ['--known', ','.join(ids)]
     if ctx.tier == 'thorough':
-        args += ['--thorough', '--deadline', '1000']
+        args += ['--thorough', '--deadline', '1100']
     else:
         args += ['--deadline', '80']
-    ctx.run_engine(exe, args, label='c20', timeout=1500)
+    ctx.run_engine(exe, args, label='c20', timeout=1700)
     return ctx.finish(RULE, ['tile storage; matrices are built with the constructors\' documented arguments only (symmetric: square matrix, square tiles, diagonal sub-blocks; band: offsets 0)',
                              'nb_vp supplied through an interposed parsec_vpmap_get_nb_vp'])
 
